@@ -127,7 +127,7 @@ def readPrim (abort : Bool) (p : Prim) (path : Path) (s : St) : R Val :=
   (bytesParsed path p.size s).bind fun _ s =>
   (take p.size s).bind fun bs s =>
     let x := p.ofBytes bs
-    let ev : MEvent := ⟨path, .named p.name false, some x, p.name⟩
+    let ev : MEvent := ⟨path, .named p.name false, some x, p.name, p.size⟩
     if p.isValid x then .ok (.int p.name x, emitM ev s)
     else if abort then .error (.value path p.name x, s)
     else .ok (.int p.name x, emitW (.value path p.name x) (emitM ev s))
@@ -144,7 +144,7 @@ def repeatDec (f : Path → St → R Val) (path : Path) : Nat → Nat → St →
 
 /-- `process_array` for `list[p]` -/
 def readPrimList (abort : Bool) (p : Prim) (path : Path) (count : Nat) (s : St) : R Val :=
-  (repeatDec (readPrim abort p) path count 0 (emitM ⟨path, .listOf p.name, none, ""⟩ s)).bind fun vs s =>
+  (repeatDec (readPrim abort p) path count 0 (emitM ⟨path, .listOf p.name, none, "", 0⟩ s)).bind fun vs s =>
     .ok (.list vs, s)
 
 /-- `{v: k for k, v in _selected_by.items()}` then lookup: the last arm with that key, else the last
@@ -227,17 +227,17 @@ def decodeFieldWith (d : Path → Option Int → St → R Val) (tname : String) 
     | .crash cls => crash cls "process_tpms: count of a list" s
     | .count c =>
       (repeatDec (fun p s => d p none s) fpath c 0
-        (emitM ⟨fpath, .listOf tname, none, ""⟩ s)).bind fun vs s => .ok (.list vs, s)
+        (emitM ⟨fpath, .listOf tname, none, "", 0⟩ s)).bind fun vs s => .ok (.list vs, s)
 
 mutual
 /-- `process(tpm_type, path, selector=sel, …)` for structure types -/
 def decode (abort : Bool) : Ty → Path → Option Int → St → R Val
   | .prim p, path, _, s => readPrim abort p path s
   | .struct name _ fs, path, _, s =>
-    (decodeFields abort fs path [] (emitM ⟨path, .named name false, none, ""⟩ s)).bind fun vals s =>
+    (decodeFields abort fs path [] (emitM ⟨path, .named name false, none, "", 0⟩ s)).bind fun vals s =>
       .ok (.obj name false vals, s)
   | .tpm2bBytes name szName szP bufName elem, path, _, s =>
-    let s := emitM ⟨path, .named name false, none, ""⟩ s
+    let s := emitM ⟨path, .named name false, none, "", 0⟩ s
     let szPath := path ++ [⟨szName, none⟩]
     (readPrim abort szP szPath s).bind fun nv s =>
       let n := (nv.asInt?.getD 0)
@@ -248,7 +248,7 @@ def decode (abort : Bool) : Ty → Path → Option Int → St → R Val
       (assertDone abort id s).bind fun _ s =>
         .ok (.obj name false [(szName, nv), (bufName, bv)], s)
   | .tpm2b name szName szP bufName body, path, _, s =>
-    let s := emitM ⟨path, .named name false, none, ""⟩ s
+    let s := emitM ⟨path, .named name false, none, "", 0⟩ s
     let szPath := path ++ [⟨szName, none⟩]
     (readPrim abort szP szPath s).bind fun nv s =>
       let n := (nv.asInt?.getD 0)
@@ -257,14 +257,14 @@ def decode (abort : Bool) : Ty → Path → Option Int → St → R Val
       (openRegion abort id szPath n.toNat s).bind fun _ s =>
         let bpath := path ++ [⟨bufName, none⟩]
         if n = 0 then
-          (assertDone abort id (emitM ⟨bpath, body.eventTag, none, ""⟩ s)).bind fun _ s =>
+          (assertDone abort id (emitM ⟨bpath, body.eventTag, none, "", 0⟩ s)).bind fun _ s =>
             .ok (.obj name false [(szName, nv), (bufName, .none)], s)
         else
           ownCatch abort id (decode abort body bpath none s) fun bv s =>
             (assertDone abort id s).bind fun _ s =>
               .ok (.obj name false [(szName, nv), (bufName, bv)], s)
   | .union name arms, path, sel, s =>
-    let s := emitM ⟨path, .named name false, none, ""⟩ s
+    let s := emitM ⟨path, .named name false, none, "", 0⟩ s
     match selectArm arms.keys sel with
     | none => crash "AssertionError" "process_tpmu: selector selects no member" s
     | some an => decodeArm abort arms name an path s
